@@ -317,7 +317,7 @@ func (q *aworld) parkCtx(ctx context.Context, key string, pk *park) int {
 	d := q.w.ParkCtx(done, key, pk, decCtx)
 	if d == decCtx {
 		q.mu.Lock()
-		q.ctxEnded = append(q.ctxEnded, pk.kind.String())
+		q.ctxEnded = append(q.ctxEnded, pk.kind.String()+" "+itemTag(ctx))
 		q.mu.Unlock()
 	}
 	return d
